@@ -298,6 +298,35 @@ func run[K comparable](r *engine.Rec, c *cfg[K]) {
 		if st, ok := coherent(m, g, "after "+op.K); !ok {
 			return st
 		}
+		if why := seqx.Interference(func() (func() string, func(), bool) {
+			mm, gg, out := build(path[0])
+			if out.Panicked {
+				return nil, nil, false
+			}
+			for _, p := range path[1:] {
+				apply(p, mm, gg)
+			}
+			return func() string { return common.View(mm) }, func() { apply(op, mm, gg) }, true
+		}, []func() func() string{
+			func() func() string {
+				b := col.Map[K, int](common.N()).Make()
+				b.SetValue(c.keys[0], 71)
+				return func() string { return common.View(b) }
+			},
+			func() func() string {
+				b := col.Map[K, int](common.N()).MakeFromMap(map[K]int{})
+				b2 := col.Map[K, int](common.N()).MakeFromMap(map[K]int{c.keys[1]: 81})
+				b2.RemoveAll()
+				return func() string { return common.View(b) + common.View(b2) }
+			},
+			func() func() string {
+				b := col.Map[K, int](common.N()).MakeFromMap(map[K]int{c.keys[0]: 91, c.keys[1]: 92})
+				b.RemoveValue(c.keys[0])
+				return func() string { return common.View(b) }
+			},
+		}); why != "" {
+			return viol("maps of one type are not independent of each other", why)
+		}
 		if guardSrc != nil && common.View(guardSrc) != guardDump {
 			return viol(op.K+" on a map built from another collection changes that collection (shared storage)", fmt.Sprint(path[0]))
 		}
